@@ -195,11 +195,18 @@ def run(ctx):
     # (1) overrides
     overrides = []
     mod_fns_ = {n.name: n for n in tree.body if isinstance(n, ast.FunctionDef)}
+    # a module-level class that defines the override is a mixin: the compiler classes built from it inherit the method
+    mixins = {c.name: m for c in tree.body if isinstance(c, ast.ClassDef) for m in c.body if isinstance(m, ast.FunctionDef) and m.name == 'render_literal_value'}
     for fn in mod_fns_.values():
         for c in [x for x in ast.walk(fn) if isinstance(x, ast.ClassDef)]:
-            for m in c.body:
-                if isinstance(m, ast.FunctionDef) and m.name == 'render_literal_value':
-                    overrides.append((fn.name, m))
+            own_ = [m for m in c.body if isinstance(m, ast.FunctionDef) and m.name == 'render_literal_value']
+            for m in own_:
+                overrides.append((fn.name, m))
+            if not own_:
+                for b in c.bases:
+                    if isinstance(b, ast.Name) and b.id in mixins:
+                        overrides.append((fn.name, mixins[b.id]))
+                        break
     ctx.setcount('literal_overrides', len(overrides))
     # every entry of the text rendering (render_dml_query, render_ddl_query) compiles with such an override: it holds one, or calls (transitively) the function that does
     owners_ = {f for f, _m in overrides}
